@@ -176,10 +176,12 @@ func hasProp(c *Contract, prop string) bool {
 func runCheck(prop, tier string, seed int, update bool, overlay map[string][]byte, selftestDir string) int {
 	t0 := time.Now()
 	// per-obligation limit; obligations claimed discharge in well under a quarter of it
-	// on an idle machine (the margin is for a loaded one)
-	timeout := 60000
+	// on an idle machine. The margin is for a loaded one: the slowest obligations
+	// (Fragmenter.truncateAndFlush's invariants, flush1's range bounds, valblk.EncodeHandle)
+	// take 10-20 s idle and were seen at 36 s, once beyond 60 s, with other jobs running.
+	timeout := 150000
 	if tier == "thorough" {
-		timeout = 180000
+		timeout = 300000
 	}
 	selftest := selftestDir != ""
 	var viols []violation
